@@ -20,10 +20,16 @@
      {"op":"sysfsraw","tree":[tree]|null,"diskstats":hex|null,"perdisk":b} → {"model":out,"spec":out|null}
          tree = {"name":hex,"files":[[hex,hex]],"subs":[tree]}; spec only for the world with neither source
      {"op":"int","toks":[hex]} → {"model":[int | "ValueError" | "unmodelled"]}     int() of one token
+     {"op":"hist","steps":[{"k":"net","pernic":b,"nowrap":b,"h1":hex,"h2":hex,"ifs":[…]} |
+                           {"k":"disk","perdisk":b,"nowrap":b,"devs":[…]} | {"k":"clearnet"} | {"k":"cleardisk"}]}
+         a history of calls in ONE process, starting with empty nowrap caches
+         → {"files":[{"file":hex[,"sysblock":[hex]]} | null], "model":[out], "spec":[outH]}
+           outH = out whose values may be null (= no claim: a counter was seen going backwards, C10's subject)
 -/
 import PsutilModel.Base.Proto
 import PsutilModel.Model.C09Gen
 import PsutilModel.Spec.C09
+import PsutilModel.Spec.C09Hist
 open Lean Psutil Psutil.Proto Psutil.C09
 
 def excName : Exc → String
@@ -53,6 +59,15 @@ def jExpect : Spec.Expect → Json
   | .emptyDict => jObj [("kind", "empty")]
   | .perdev d => jObj [("kind", "perdev"), ("devs", jPerdev d)]
   | .total t => jObj [("kind", "total"), ("fields", jNT t)]
+
+def jNTH (t : List (String × Option Nat)) : Json :=
+  jList (fun kv => Json.arr #[Json.str kv.1, match kv.2 with | some v => jNat v | none => Json.null]) t
+
+def jExpectH : Spec.ExpectH → Json
+  | .none => jObj [("kind", "none")]
+  | .emptyDict => jObj [("kind", "empty")]
+  | .perdev d => jObj [("kind", "perdev"), ("devs", jList (fun kv => Json.arr #[jBytes kv.1, jNTH kv.2]) d)]
+  | .total t => jObj [("kind", "total"), ("fields", jNTH t)]
 
 def parseIface (j : Json) : R Spec.Iface := do
   let name ← bytesF j "name"
@@ -133,6 +148,37 @@ def parseSysDisk (j : Json) : R Spec.SysDisk := do
   let parts ← listF parseSysPart j "parts"
   pure { major := major, minor := minor, name := name, s := s, ext := ext, others := others, attrs := attrs,
          parts := parts }
+
+/-- one step of a history: the kernel-side step (for the specification) -/
+def parseStep (j : Json) : R Spec.Step := do
+  let k ← strF j "k"
+  if k == "net" then do
+    let per ← boolF j "pernic"
+    let nowrap ← boolF j "nowrap"
+    let h1 ← bytesF j "h1"
+    let h2 ← bytesF j "h2"
+    let ifs ← listF parseIface j "ifs"
+    pure (.net per nowrap h1 h2 ifs)
+  else if k == "disk" then do
+    let per ← boolF j "perdisk"
+    let nowrap ← boolF j "nowrap"
+    let devs ← listF parseDev j "devs"
+    pure (.disk per nowrap devs)
+  else if k == "clearnet" then pure .clearNet
+  else if k == "cleardisk" then pure .clearDisk
+  else .error s!"unknown step kind {k}"
+
+/-- what the process is shown for a kernel-side step: the files the Lean renderers produce -/
+def renderStep : Spec.Step → MStep
+  | .net per nowrap h1 h2 ifs => .net per nowrap (Spec.renderNetDev h1 h2 ifs)
+  | .disk per nowrap devs => .disk per nowrap (Spec.sysBlock devs) (Spec.renderDiskstats devs)
+  | .clearNet => .clearNet
+  | .clearDisk => .clearDisk
+
+def jStepFiles : MStep → Json
+  | .net _ _ file => jObj [("file", jBytes file)]
+  | .disk _ _ sb file => jObj [("file", jBytes file), ("sysblock", jList jBytes sb)]
+  | _ => Json.null
 
 def jIntTok (t : Bytes) : Json :=
   if hasNonAscii t then Json.str "unmodelled"
@@ -222,6 +268,11 @@ def handle (_ : Unit) (j : Json) : R (Unit × Json) := do
   else if op == "int" then
     let toks ← listF asBytes j "toks"
     return ((), jObj [("model", jList jIntTok toks)])
+  else if op == "hist" then
+    let steps ← listF parseStep j "steps"
+    let ms := steps.map renderStep
+    return ((), jObj [("files", jList jStepFiles ms), ("model", jList jOut (mrun WState.init ms)),
+                      ("spec", jList jExpectH (Spec.hrun Spec.HState.init steps))])
   else if op == "storage" then
     let sb ← listF asBytes j "sysblock"
     let names ← listF asBytes j "names"
